@@ -1,9 +1,1299 @@
 package sim
 
-import "testing"
+import (
+	stdctx "context"
+	"encoding/hex"
+	"fmt"
+	"os"
+	"reflect"
+	"sort"
+	"strings"
+	"sync"
+	"testing"
+	"testing/synctest"
+	"time"
 
-// StoreSpec is the world of the store engines (E3/E4); defined in store_*.go.
-type StoreSpec struct{}
+	"github.com/anishathalye/porcupine"
+	"github.com/element-of-surprise/coercion/plugins"
+	"github.com/element-of-surprise/coercion/workflow"
+	"github.com/element-of-surprise/coercion/workflow/storage"
+	"github.com/element-of-surprise/coercion/workflow/storage/cosmosdb"
+	"github.com/element-of-surprise/coercion/workflow/storage/sqlite"
+	"github.com/google/uuid"
+	"github.com/gostdlib/base/concurrency/worker"
+	"github.com/gostdlib/base/context"
+)
 
-func storeWorker(t *testing.T, job *Job)    { t.Fatalf("store engine not built yet") }
-func storeReplay(t *testing.T, rep *Replay) { t.Fatalf("store engine not built yet") }
+// ---------------------------------------------------------------------------
+// E3: a Vault against a reference model (C13, C15) and, for Create/Delete,
+// the in-process part of C14 (encode faults, duplicates, interleavings).
+// ---------------------------------------------------------------------------
+
+// StorePlan is one plan of a store world: a shape plus field values.
+type StorePlan struct {
+	Shape    PlanSpec `json:"shape"`
+	Meta     int      `json:"meta"`            // 0 nil, 1 empty, 2 data
+	Keys     bool     `json:"keys"`            // give every object a user key
+	SubmitMs int64    `json:"submitMs"`        // submit time offset (distinct per plan)
+	Status   int      `json:"status"`          // initial plan status written by Create
+	BadAt    string   `json:"badAt,omitempty"` // path of the action whose request cannot be serialised
+}
+
+// AttGen describes one generated attempt.
+type AttGen struct {
+	OK      bool  `json:"ok"`
+	StartNs int64 `json:"s"`
+	EndNs   int64 `json:"e"`
+	Depth   int   `json:"depth"` // wrapped error depth
+}
+
+// StoreOp is one operation of a store client.
+type StoreOp struct {
+	Op       string   `json:"op"`             // create update read exists search list delete reopen
+	Plan     int      `json:"plan,omitempty"` // -1 = an id that was never created
+	Path     string   `json:"path,omitempty"` // update target
+	Status   int      `json:"status,omitempty"`
+	StartNs  int64    `json:"s,omitempty"`
+	EndNs    int64    `json:"e,omitempty"`
+	Reason   int      `json:"reason,omitempty"`
+	Attempts []AttGen `json:"att,omitempty"`
+	IDs      []int    `json:"ids,omitempty"`
+	Groups   []int    `json:"groups,omitempty"`
+	Statuses []int    `json:"statuses,omitempty"`
+	Limit    int      `json:"limit,omitempty"`
+	Consume  string   `json:"consume,omitempty"` // drain | cancel
+	K        int      `json:"k,omitempty"`       // cancel after k elements
+	Fault    string   `json:"fault,omitempty"`   // cosmos item-error switch active during the op
+}
+
+// StoreSpec is the world of one store run.
+type StoreSpec struct {
+	Backend   string      `json:"backend"` // sqlite-mem | sqlite-file | cosmos
+	Seed      uint64      `json:"seed"`
+	SchedSeed uint64      `json:"schedSeed"`
+	Plans     []StorePlan `json:"plans"`
+	Clients   [][]StoreOp `json:"clients"`
+	Policy    PolicySpec  `json:"policy"`
+	Conc      bool        `json:"conc,omitempty"` // several clients: linearizability check instead of op-by-op comparison
+	Decisions []int       `json:"decisions,omitempty"`
+}
+
+// FullObj is a structural copy of everything stored about one object.
+type FullObj struct {
+	Path, Kind              string
+	ID, Key                 string
+	Name, Descr, Plugin     string
+	TimeoutNs               int64
+	Retries                 int
+	Req                     string
+	DelayNs, EntrNs, ExitNs int64
+	Conc, Tol               int
+	Group, Meta             string
+	Submit                  int64
+	St                      ObjState
+}
+
+type FullPlan struct{ Objs []FullObj }
+
+func fullState(s *workflow.State) ObjState { return snapState(s) }
+
+func fullAction(path string, a *workflow.Action) FullObj {
+	o := FullObj{Path: path, Kind: "action", ID: a.ID.String(), Key: a.Key.String(), Name: a.Name, Descr: a.Descr, Plugin: a.Plugin,
+		TimeoutNs: int64(a.Timeout), Retries: a.Retries, Req: snapResp(a.Req), St: snapAction(a)}
+	return o
+}
+
+// sortedActions returns the actions ordered by id (used for the cosmos backend,
+// whose fake client ignores ORDER BY: the order of actions is not decidable over it).
+func sortedActions(as []*workflow.Action) []*workflow.Action {
+	out := append([]*workflow.Action(nil), as...)
+	sort.SliceStable(out, func(i, j int) bool { return out[i].ID.String() < out[j].ID.String() })
+	return out
+}
+
+// FullSnapUnordered is FullSnap with the actions of every parent in id order.
+func FullSnapUnordered(idx int, p *workflow.Plan) *FullPlan {
+	cp := *p
+	fixC := func(c *workflow.Checks) *workflow.Checks {
+		if c == nil {
+			return nil
+		}
+		cc := *c
+		cc.Actions = sortedActions(c.Actions)
+		return &cc
+	}
+	cp.BypassChecks, cp.PreChecks, cp.ContChecks, cp.PostChecks, cp.DeferredChecks = fixC(p.BypassChecks), fixC(p.PreChecks), fixC(p.ContChecks), fixC(p.PostChecks), fixC(p.DeferredChecks)
+	cp.Blocks = nil
+	for _, b := range p.Blocks {
+		cb := *b
+		cb.BypassChecks, cb.PreChecks, cb.ContChecks, cb.PostChecks, cb.DeferredChecks = fixC(b.BypassChecks), fixC(b.PreChecks), fixC(b.ContChecks), fixC(b.PostChecks), fixC(b.DeferredChecks)
+		cb.Sequences = nil
+		for _, s := range b.Sequences {
+			cs := *s
+			cs.Actions = sortedActions(s.Actions)
+			cb.Sequences = append(cb.Sequences, &cs)
+		}
+		cp.Blocks = append(cp.Blocks, &cb)
+	}
+	return FullSnap(idx, &cp)
+}
+
+// snap is the snapshot function of the backend under test.
+func (sw *storeWorld) snap(idx int, p *workflow.Plan) *FullPlan {
+	if sw.spec.Backend == "cosmos" {
+		return FullSnapUnordered(idx, p)
+	}
+	return FullSnap(idx, p)
+}
+
+// FullSnap copies everything a vault is supposed to keep about a plan.
+func FullSnap(idx int, p *workflow.Plan) *FullPlan {
+	f := &FullPlan{}
+	pp := planPath(idx)
+	st := fullState(p.State)
+	st.Reason = int(p.Reason)
+	meta := ""
+	if len(p.Meta) > 0 {
+		meta = hex.EncodeToString(p.Meta)
+	}
+	f.Objs = append(f.Objs, FullObj{Path: pp, Kind: "plan", ID: p.ID.String(), Name: p.Name, Descr: p.Descr, Group: p.GroupID.String(), Meta: meta, Submit: tsnap(p.SubmitTime), St: st})
+	addChecks := func(parent string, cs [5]*workflow.Checks) {
+		for gi, c := range cs {
+			if c == nil {
+				continue
+			}
+			cp := parent + "/" + groupNames[gi]
+			f.Objs = append(f.Objs, FullObj{Path: cp, Kind: "checks", ID: c.ID.String(), Key: c.Key.String(), DelayNs: int64(c.Delay), St: fullState(c.State)})
+			for ai, a := range c.Actions {
+				f.Objs = append(f.Objs, fullAction(fmt.Sprintf("%s/a%d", cp, ai), a))
+			}
+		}
+	}
+	addChecks(pp, [5]*workflow.Checks{p.BypassChecks, p.PreChecks, p.ContChecks, p.PostChecks, p.DeferredChecks})
+	for bi, b := range p.Blocks {
+		bp := fmt.Sprintf("%s/b%d", pp, bi)
+		f.Objs = append(f.Objs, FullObj{Path: bp, Kind: "block", ID: b.ID.String(), Key: b.Key.String(), Name: b.Name, Descr: b.Descr,
+			EntrNs: int64(b.EntranceDelay), ExitNs: int64(b.ExitDelay), Conc: b.Concurrency, Tol: b.ToleratedFailures, St: fullState(b.State)})
+		addChecks(bp, [5]*workflow.Checks{b.BypassChecks, b.PreChecks, b.ContChecks, b.PostChecks, b.DeferredChecks})
+		for si, s := range b.Sequences {
+			sp := fmt.Sprintf("%s/s%d", bp, si)
+			f.Objs = append(f.Objs, FullObj{Path: sp, Kind: "sequence", ID: s.ID.String(), Key: s.Key.String(), Name: s.Name, Descr: s.Descr, St: fullState(s.State)})
+			for ai, a := range s.Actions {
+				f.Objs = append(f.Objs, fullAction(fmt.Sprintf("%s/a%d", sp, ai), a))
+			}
+		}
+	}
+	return f
+}
+
+// diffFull returns "" if equal, else "<kind>.<field>" of the first difference.
+func diffFull(want, got *FullPlan) string {
+	if got == nil {
+		return "plan.missing"
+	}
+	if len(want.Objs) != len(got.Objs) {
+		return "plan.object-count"
+	}
+	for i := range want.Objs {
+		a, b := want.Objs[i], got.Objs[i]
+		if a.Path != b.Path {
+			return a.Kind + ".order"
+		}
+		av, bv := reflect.ValueOf(a), reflect.ValueOf(b)
+		for fi := 0; fi < av.NumField(); fi++ {
+			name := av.Type().Field(fi).Name
+			if name == "St" {
+				continue
+			}
+			if !reflect.DeepEqual(av.Field(fi).Interface(), bv.Field(fi).Interface()) {
+				return a.Kind + "." + name
+			}
+		}
+		if a.St.Status != b.St.Status {
+			return a.Kind + ".Status"
+		}
+		if a.St.Start != b.St.Start {
+			return a.Kind + ".Start"
+		}
+		if a.St.End != b.St.End {
+			return a.Kind + ".End"
+		}
+		if a.St.Reason != b.St.Reason {
+			return a.Kind + ".Reason"
+		}
+		if len(a.St.Attempts) != len(b.St.Attempts) {
+			return a.Kind + ".Attempts(count)"
+		}
+		for k := range a.St.Attempts {
+			x, y := a.St.Attempts[k], b.St.Attempts[k]
+			switch {
+			case x.Start != y.Start || x.End != y.End:
+				return a.Kind + ".Attempts.times"
+			case x.Resp != y.Resp:
+				return a.Kind + ".Attempts.Resp"
+			case !errEqual(x.Err, y.Err):
+				return a.Kind + ".Attempts.Err"
+			}
+		}
+	}
+	return ""
+}
+
+// ---------------------------------------------------------------------------
+
+func v7(r *Rng) uuid.UUID {
+	var u uuid.UUID
+	r.Read(u[:])
+	u[6] = (u[6] & 0x0f) | 0x70
+	u[8] = (u[8] & 0x3f) | 0x80
+	return u
+}
+
+// materialise builds the live workflow.Plan of a StorePlan, as Submit would
+// have left it (ids, NotStarted states, submit time), plus field values.
+func materialise(idx int, sp *StorePlan, r *Rng) *workflow.Plan {
+	p := BuildPlan(idx, &sp.Shape)
+	switch sp.Meta {
+	case 0:
+		p.Meta = nil
+	case 1:
+		p.Meta = []byte{}
+	default:
+		p.Meta = []byte(fmt.Sprintf("meta-%d-\x00\xff", idx))
+	}
+	p.ID = v7(r)
+	p.State = &workflow.State{Status: workflow.Status(sp.Status)}
+	p.SubmitTime = time.Unix(0, epochUnixNs+sp.SubmitMs*1e6+int64(idx)).UTC()
+	key := func() uuid.UUID {
+		if sp.Keys {
+			return v7(r)
+		}
+		return uuid.Nil
+	}
+	var doAction func(a *workflow.Action)
+	doAction = func(a *workflow.Action) {
+		a.ID, a.Key = v7(r), key()
+		a.State = &workflow.State{}
+		a.SetPlanID(p.ID)
+		if a.Timeout == 0 {
+			a.Timeout = 30 * time.Second
+		}
+	}
+	doChecks := func(c *workflow.Checks) {
+		if c == nil {
+			return
+		}
+		c.ID, c.Key = v7(r), key()
+		c.State = &workflow.State{}
+		c.SetPlanID(p.ID)
+		for _, a := range c.Actions {
+			doAction(a)
+		}
+	}
+	for _, c := range []*workflow.Checks{p.BypassChecks, p.PreChecks, p.ContChecks, p.PostChecks, p.DeferredChecks} {
+		doChecks(c)
+	}
+	for _, b := range p.Blocks {
+		b.ID, b.Key = v7(r), key()
+		b.State = &workflow.State{}
+		b.SetPlanID(p.ID)
+		if b.Concurrency < 1 {
+			b.Concurrency = 1
+		}
+		for _, c := range []*workflow.Checks{b.BypassChecks, b.PreChecks, b.ContChecks, b.PostChecks, b.DeferredChecks} {
+			doChecks(c)
+		}
+		for _, s := range b.Sequences {
+			s.ID, s.Key = v7(r), key()
+			s.State = &workflow.State{}
+			s.SetPlanID(p.ID)
+			for _, a := range s.Actions {
+				doAction(a)
+			}
+		}
+	}
+	return p
+}
+
+// objByPath finds the live object of a logical path.
+func objByPath(idx int, p *workflow.Plan, path string) any {
+	pp := planPath(idx)
+	if path == pp {
+		return p
+	}
+	find := func(parent string, cs [5]*workflow.Checks) any {
+		for gi, c := range cs {
+			if c == nil {
+				continue
+			}
+			cp := parent + "/" + groupNames[gi]
+			if path == cp {
+				return c
+			}
+			for ai, a := range c.Actions {
+				if path == fmt.Sprintf("%s/a%d", cp, ai) {
+					return a
+				}
+			}
+		}
+		return nil
+	}
+	if o := find(pp, [5]*workflow.Checks{p.BypassChecks, p.PreChecks, p.ContChecks, p.PostChecks, p.DeferredChecks}); o != nil {
+		return o
+	}
+	for bi, b := range p.Blocks {
+		bp := fmt.Sprintf("%s/b%d", pp, bi)
+		if path == bp {
+			return b
+		}
+		if o := find(bp, [5]*workflow.Checks{b.BypassChecks, b.PreChecks, b.ContChecks, b.PostChecks, b.DeferredChecks}); o != nil {
+			return o
+		}
+		for si, s := range b.Sequences {
+			sp := fmt.Sprintf("%s/s%d", bp, si)
+			if path == sp {
+				return s
+			}
+			for ai, a := range s.Actions {
+				if path == fmt.Sprintf("%s/a%d", sp, ai) {
+					return a
+				}
+			}
+		}
+	}
+	return nil
+}
+
+func tFromNs(ns int64) time.Time {
+	if ns == 0 {
+		return time.Time{}
+	}
+	return time.Unix(0, ns).UTC()
+}
+
+func genAttempts(path string, ptr bool, gens []AttGen) []*workflow.Attempt {
+	var out []*workflow.Attempt
+	for k, g := range gens {
+		at := &workflow.Attempt{Start: tFromNs(g.StartNs), End: tFromNs(g.EndNs)}
+		if g.OK {
+			r := Resp{Path: path, Inv: k, Note: "stored \"quoted\" é"}
+			if ptr {
+				at.Resp = &r
+			} else {
+				at.Resp = r
+			}
+		} else {
+			e := &plugins.Error{Code: plugins.ErrCode(10 + k), Message: fmt.Sprintf("attempt %d of %s failed", k, path), Permanent: k%2 == 1}
+			cur := e
+			for d := 0; d < g.Depth; d++ {
+				cur.Wrapped = &plugins.Error{Code: plugins.ErrCode(100 + d), Message: fmt.Sprintf("cause %d", d), Permanent: d%2 == 0}
+				cur = cur.Wrapped
+			}
+			at.Err = e
+		}
+		out = append(out, at)
+	}
+	return out
+}
+
+// StoreResult is what one store run produced.
+type StoreResult struct {
+	Violations []Violation
+	Ops        int
+	SimNs      int64
+	Harness    string
+	Decisions  []int
+	Probes     map[string]int
+	Trace      []string
+	HistoryLen int
+	LinUnknown bool
+	hist       []porcupine.Operation
+}
+
+type storeWorld struct {
+	spec    *StoreSpec
+	w       *World
+	t       *testing.T
+	vault   storage.Vault
+	ctl     *cosmosdb.FakeControl
+	dir     string
+	live    []*workflow.Plan
+	mu      sync.Mutex
+	model   map[int]*FullPlan // sequential reference model (seq mode)
+	v       *vset
+	res     *StoreResult
+	unknown uuid.UUID
+	sem     chan struct{}
+	hist    []porcupine.Operation
+}
+
+func (sw *storeWorld) tracef(format string, args ...any) {
+	sw.mu.Lock()
+	sw.res.Trace = append(sw.res.Trace, fmt.Sprintf("t=%s ", fmtT(sw.w.Now()))+fmt.Sprintf(format, args...))
+	sw.mu.Unlock()
+}
+
+func (sw *storeWorld) probe(k string) {
+	sw.mu.Lock()
+	sw.res.Probes[k]++
+	sw.mu.Unlock()
+}
+
+func (sw *storeWorld) open() (storage.Vault, error) {
+	ctx := context.Background()
+	reg := NewRegistry(nil, 0, nil)
+	switch sw.spec.Backend {
+	case "sqlite-file":
+		return sqlite.New(ctx, sw.dir, reg)
+	case "cosmos":
+		v, ctl := cosmosdb.NewFakeVault(reg)
+		sw.ctl = ctl
+		return v, nil
+	default:
+		return sqlite.New(ctx, "", reg, sqlite.WithInMemory())
+	}
+}
+
+const opBudget = time.Hour
+
+// inVault runs f while holding the harness' one-at-a-time token, so that no
+// goroutine ever blocks on the vault's own mutex (which synctest cannot see).
+// It reports false if f did not finish within the simulated budget.
+func (sw *storeWorld) inVault(f func()) bool {
+	select {
+	case sw.sem <- struct{}{}:
+	case <-time.After(opBudget):
+		return false
+	}
+	done := make(chan struct{})
+	go func() {
+		defer close(done)
+		f()
+	}()
+	select {
+	case <-done:
+		<-sw.sem
+		return true
+	case <-time.After(opBudget):
+		// the operation is stuck inside the vault; the token is never returned
+		return false
+	}
+}
+
+func (sw *storeWorld) id(i int) uuid.UUID {
+	if i < 0 || i >= len(sw.live) {
+		return sw.unknown
+	}
+	return sw.live[i].ID
+}
+
+func be(sw *storeWorld) string { return sw.spec.Backend }
+
+// expectList computes what Search/List must return from the model.
+type listRow struct {
+	idx    int
+	id     string
+	group  string
+	name   string
+	descr  string
+	submit int64
+	status int
+}
+
+func (sw *storeWorld) modelRows() []listRow {
+	var rows []listRow
+	for i, m := range sw.model {
+		o := m.Objs[0]
+		rows = append(rows, listRow{idx: i, id: o.ID, group: o.Group, name: o.Name, descr: o.Descr, submit: o.Submit, status: o.St.Status})
+	}
+	sort.Slice(rows, func(a, b int) bool { return rows[a].submit > rows[b].submit })
+	return rows
+}
+
+func contains[T comparable](xs []T, x T) bool {
+	for _, y := range xs {
+		if x == y {
+			return true
+		}
+	}
+	return false
+}
+
+func (sw *storeWorld) doOp(ci int, op StoreOp) {
+	w := sw.w
+	if !w.Park(0, fmt.Sprintf("op: c%d %s p%d %s", ci, op.Op, op.Plan, op.Path)) {
+		return
+	}
+	sw.mu.Lock()
+	sw.res.Ops++
+	sw.mu.Unlock()
+	ctx := context.Background()
+	B := be(sw)
+	stuck := func(what string) {
+		sw.v.addf("C15", "C15.r4", B+" "+what+" never completed (an earlier stream still holds the connection?)", nil, "client %d op %s", ci, op.Op)
+	}
+	callSeq := w.Log(Event{Kind: EvAPICall, Client: ci, Op: op.Op, Obj: planPath(op.Plan)})
+	switch op.Op {
+	case "create":
+		if op.Plan < 0 || op.Plan >= len(sw.live) {
+			return
+		}
+		p := sw.live[op.Plan]
+		if sw.spec.Conc {
+			// concurrent clients never share a mutable object: every Create writes a pristine copy
+			cp := *p
+			cp.State = &workflow.State{Status: workflow.NotStarted}
+			p = &cp
+		}
+		var err error
+		if op.Fault != "" && sw.ctl != nil {
+			sw.ctl.SetCreateItemErr(true)
+		}
+		submitted := sw.snap(op.Plan, p) // taken before the call: Create may modify the object it is given
+		ok := sw.inVault(func() { err = sw.vault.Create(ctx, p) })
+		if op.Fault != "" && sw.ctl != nil {
+			sw.ctl.SetCreateItemErr(false)
+		}
+		if !ok {
+			stuck("Create")
+			return
+		}
+		retSeq := w.Log(Event{Kind: EvAPIRet, Client: ci, Op: op.Op, Obj: planPath(op.Plan), Err: errStr(err)})
+		sw.tracef("c%d Create(p%d) = %v", ci, op.Plan, errStr(err))
+		if sw.spec.Conc {
+			sw.record(ci, op, callSeq, retSeq, err == nil, 0, false)
+			return
+		}
+		_, exists := sw.model[op.Plan]
+		bad := sw.spec.Plans[op.Plan].BadAt != ""
+		switch {
+		case exists:
+			sw.probe("create of an existing id")
+			if err == nil {
+				sw.v.addf("C14", "C14.r6", B+" Create of an existing id succeeded", nil, "plan p%d", op.Plan)
+			}
+		case bad || op.Fault != "":
+			sw.probe("create with an encode fault or item error")
+			if err == nil {
+				// r5: a successful Create implies the stored plan equals the submitted one
+				got, rerr := sw.readFull(op.Plan)
+				if rerr != nil || diffFull(submitted, got) != "" {
+					where := "unreadable"
+					if rerr == nil {
+						where = diffFull(submitted, got)
+					}
+					sw.v.addf("C14", "C14.r5", B+" Create returned nil although an object could not be stored ("+badKind(sw.spec.Plans[op.Plan].BadAt, op.Fault)+"): stored plan differs at "+where, nil, "plan p%d bad at %s", op.Plan, sw.spec.Plans[op.Plan].BadAt)
+				}
+				sw.model[op.Plan] = submitted
+			} else if n := sw.traces(op.Plan); n != "" {
+				sw.v.addf("C14", "C14.r5", B+" failed Create left traces of the plan ("+badKind(sw.spec.Plans[op.Plan].BadAt, op.Fault)+")", nil, "plan p%d: %s", op.Plan, n)
+			}
+		default:
+			if err != nil {
+				sw.v.addf("C13", "C13.r1", B+" Create of a well-formed plan failed", nil, "plan p%d: %v", op.Plan, err)
+				return
+			}
+			sw.model[op.Plan] = submitted
+		}
+	case "update":
+		if _, exists := sw.model[op.Plan]; !exists && !sw.spec.Conc {
+			return
+		}
+		p := sw.live[op.Plan]
+		obj := objByPath(op.Plan, p, op.Path)
+		var err error
+		st := &workflow.State{Status: workflow.Status(op.Status), Start: tFromNs(op.StartNs), End: tFromNs(op.EndNs)}
+		apply := func(cur *workflow.State) *workflow.State {
+			st.ETag = cur.ETag
+			return st
+		}
+		ok := true
+		switch o := obj.(type) {
+		case *workflow.Plan:
+			if sw.spec.Conc {
+				cp := *o
+				cp.State = &workflow.State{Status: st.Status, Start: st.Start, End: st.End}
+				ok = sw.inVault(func() { err = sw.vault.UpdatePlan(ctx, &cp) })
+				break
+			}
+			o.State = apply(o.State)
+			o.Reason = workflow.FailureReason(op.Reason)
+			ok = sw.inVault(func() { err = sw.vault.UpdatePlan(ctx, o) })
+		case *workflow.Block:
+			o.State = apply(o.State)
+			ok = sw.inVault(func() { err = sw.vault.UpdateBlock(ctx, o) })
+		case *workflow.Checks:
+			o.State = apply(o.State)
+			ok = sw.inVault(func() { err = sw.vault.UpdateChecks(ctx, o) })
+		case *workflow.Sequence:
+			o.State = apply(o.State)
+			ok = sw.inVault(func() { err = sw.vault.UpdateSequence(ctx, o) })
+		case *workflow.Action:
+			o.State = apply(o.State)
+			o.Attempts = genAttempts(op.Path, strings.HasSuffix(o.Plugin, "ptr"), op.Attempts)
+			ok = sw.inVault(func() { err = sw.vault.UpdateAction(ctx, o) })
+		default:
+			return
+		}
+		if !ok {
+			stuck("Update")
+			return
+		}
+		retSeq := w.Log(Event{Kind: EvAPIRet, Client: ci, Op: op.Op, Obj: op.Path, Err: errStr(err)})
+		sw.tracef("c%d Update(%s -> %s, %d attempts) = %v", ci, op.Path, stName(op.Status), len(op.Attempts), errStr(err))
+		if sw.spec.Conc {
+			sw.record(ci, op, callSeq, retSeq, err == nil, op.StartNs, false)
+			return
+		}
+		if err != nil {
+			sw.v.addf("C13", "C13.r1", B+" update of an existing object failed", nil, "%s: %v", op.Path, err)
+			return
+		}
+		// an update carries the object's state (status, times, reason, attempts) and nothing else
+		var id string
+		var nst ObjState
+		switch o := obj.(type) {
+		case *workflow.Plan:
+			id, nst = o.ID.String(), snapState(o.State)
+			nst.Reason = int(o.Reason)
+		case *workflow.Block:
+			id, nst = o.ID.String(), snapState(o.State)
+		case *workflow.Checks:
+			id, nst = o.ID.String(), snapState(o.State)
+		case *workflow.Sequence:
+			id, nst = o.ID.String(), snapState(o.State)
+		case *workflow.Action:
+			id, nst = o.ID.String(), snapAction(o)
+		}
+		m := sw.model[op.Plan]
+		for k := range m.Objs {
+			if m.Objs[k].ID == id {
+				m.Objs[k].St = nst
+			}
+		}
+	case "read":
+		var got *workflow.Plan
+		var err error
+		if !sw.inVault(func() { got, err = sw.vault.Read(ctx, sw.id(op.Plan)) }) {
+			stuck("Read")
+			return
+		}
+		retSeq := w.Log(Event{Kind: EvAPIRet, Client: ci, Op: op.Op, Obj: planPath(op.Plan), Err: errStr(err)})
+		sw.tracef("c%d Read(p%d) = plan? %v, err %v", ci, op.Plan, got != nil, errStr(err))
+		if sw.spec.Conc {
+			found := err == nil && got != nil && got.ID == sw.id(op.Plan)
+			var val int64
+			if found && got.State != nil {
+				val = tsnap(got.State.Start)
+			}
+			sw.record(ci, op, callSeq, retSeq, found, val, true)
+			return
+		}
+		want, exists := sw.model[op.Plan]
+		if !exists {
+			sw.probe("read of a missing id")
+			if err == nil {
+				shape := "nil plan"
+				if got != nil {
+					shape = "a non-nil plan"
+				}
+				sw.v.addf("C13", "C13.r2", B+" Read of a never-created or deleted id returned no error ("+shape+")", nil, "plan p%d", op.Plan)
+			} else if got != nil {
+				sw.v.addf("C13", "C13.r2", B+" Read of a missing id returned an error and a non-nil plan", nil, "plan p%d", op.Plan)
+			}
+			return
+		}
+		if err != nil || got == nil {
+			sw.v.addf("C13", "C13.r1", B+" Read of a stored plan failed", nil, "plan p%d: %v", op.Plan, err)
+			return
+		}
+		if d := diffFull(want, sw.snap(op.Plan, got)); d != "" {
+			sw.v.addf("C13", "C13.r1", B+" Read differs from what was last written: "+d, nil, "plan p%d", op.Plan)
+		}
+	case "exists":
+		var got bool
+		var err error
+		if !sw.inVault(func() { got, err = sw.vault.Exists(ctx, sw.id(op.Plan)) }) {
+			stuck("Exists")
+			return
+		}
+		retSeq := w.Log(Event{Kind: EvAPIRet, Client: ci, Op: op.Op, Obj: planPath(op.Plan), Err: errStr(err)})
+		sw.tracef("c%d Exists(p%d) = %v, %v", ci, op.Plan, got, errStr(err))
+		if sw.spec.Conc {
+			sw.record(ci, op, callSeq, retSeq, err == nil && got, 0, true)
+			return
+		}
+		_, exists := sw.model[op.Plan]
+		if err != nil {
+			sw.v.addf("C15", "C15.r1", B+" Exists failed", nil, "plan p%d: %v", op.Plan, err)
+		} else if got != exists {
+			sw.v.addf("C15", "C15.r1", fmt.Sprintf("%s Exists returned %v for a plan that %s", B, got, map[bool]string{true: "is stored", false: "is not stored"}[exists]), nil, "plan p%d", op.Plan)
+		}
+	case "delete":
+		var err error
+		if op.Fault != "" && sw.ctl != nil {
+			sw.ctl.SetDeleteItemErr(true)
+		}
+		ok := sw.inVault(func() { err = sw.vault.Delete(ctx, sw.id(op.Plan)) })
+		if op.Fault != "" && sw.ctl != nil {
+			sw.ctl.SetDeleteItemErr(false)
+		}
+		if !ok {
+			stuck("Delete")
+			return
+		}
+		retSeq := w.Log(Event{Kind: EvAPIRet, Client: ci, Op: op.Op, Obj: planPath(op.Plan), Err: errStr(err)})
+		sw.tracef("c%d Delete(p%d) = %v", ci, op.Plan, errStr(err))
+		if sw.spec.Conc {
+			sw.record(ci, op, callSeq, retSeq, err == nil, 0, false)
+			return
+		}
+		_, exists := sw.model[op.Plan]
+		if !exists {
+			return // deleting what is not there: unspecified result, must only leave the others alone (checked by later reads)
+		}
+		if op.Fault != "" {
+			if err == nil {
+				delete(sw.model, op.Plan)
+			} else {
+				// r7 under an item error: all of the plan or none of it remains
+				got, rerr := sw.readFull(op.Plan)
+				if rerr == nil && diffFull(sw.model[op.Plan], got) == "" {
+					return
+				}
+				if n := sw.traces(op.Plan); n != "" || rerr == nil {
+					sw.v.addf("C14", "C14.r7", B+" failed Delete left the plan partly deleted", nil, "plan p%d: %s", op.Plan, n)
+				}
+				delete(sw.model, op.Plan)
+			}
+			return
+		}
+		if err != nil {
+			sw.v.addf("C14", "C14.r7", B+" Delete of a stored plan failed", nil, "plan p%d: %v", op.Plan, err)
+			return
+		}
+		delete(sw.model, op.Plan)
+		if n := sw.traces(op.Plan); n != "" {
+			sw.v.addf("C14", "C14.r7", B+" Delete left objects of the plan behind", nil, "plan p%d: %s", op.Plan, n)
+		}
+	case "search", "list":
+		sw.doStream(ci, op, callSeq)
+	case "reopen":
+		if sw.spec.Backend != "sqlite-file" {
+			return
+		}
+		// abandon the vault without Close and open a new one on the same directory
+		nv, err := sw.open()
+		if err != nil {
+			sw.v.addf("C13", "C13.r3", B+" cannot reopen the store", nil, "%v", err)
+			return
+		}
+		sw.vault = nv
+		sw.sem = make(chan struct{}, 1)
+		sw.probe("reopen")
+		sw.tracef("c%d Reopen", ci)
+		for i, want := range sw.model {
+			got, err := sw.readFull(i)
+			if err != nil {
+				sw.v.addf("C13", "C13.r3", B+" acknowledged plan not readable after reopening the store", nil, "plan p%d: %v", i, err)
+			} else if d := diffFull(want, got); d != "" {
+				sw.v.addf("C13", "C13.r3", B+" acknowledged write lost after reopening the store: "+d, nil, "plan p%d", i)
+			}
+		}
+	}
+}
+
+func badKind(badAt, fault string) string {
+	if fault != "" {
+		return "item error"
+	}
+	switch {
+	case strings.Contains(badAt, "/s"):
+		return "sequence action"
+	case badAt != "":
+		parts := strings.Split(badAt, "/")
+		if len(parts) >= 3 {
+			lvl := "plan"
+			if len(parts) == 4 {
+				lvl = "block"
+			}
+			return lvl + " " + parts[len(parts)-2] + " check action"
+		}
+	}
+	return "?"
+}
+
+func (sw *storeWorld) readFull(i int) (*FullPlan, error) {
+	var got *workflow.Plan
+	var err error
+	if !sw.inVault(func() { got, err = sw.vault.Read(context.Background(), sw.id(i)) }) {
+		return nil, fmt.Errorf("read never completed")
+	}
+	if err != nil {
+		return nil, err
+	}
+	if got == nil || got.ID != sw.id(i) {
+		return nil, fmt.Errorf("no such plan")
+	}
+	return sw.snap(i, got), nil
+}
+
+// traces reports rows that still belong to plan i (sqlite backends only; the
+// cosmos fake is probed through Read/Exists).
+func (sw *storeWorld) traces(i int) string {
+	p := sw.live[i]
+	ids := map[string]string{}
+	for _, o := range FullSnap(i, p).Objs {
+		ids[o.ID] = o.Path
+	}
+	sv, ok := sw.vault.(*sqlite.Vault)
+	if !ok {
+		var ex bool
+		var err error
+		sw.inVault(func() { ex, err = sw.vault.Exists(context.Background(), p.ID) })
+		if err == nil && ex {
+			return "Exists still reports the plan"
+		}
+		var got *workflow.Plan
+		sw.inVault(func() { got, err = sw.vault.Read(context.Background(), p.ID) })
+		if err == nil && got != nil && got.ID == p.ID {
+			return "the plan can still be read"
+		}
+		return ""
+	}
+	var found []string
+	sw.inVault(func() {
+		conn, err := sv.Pool().Take(stdctx.Background())
+		if err != nil {
+			return
+		}
+		defer sv.Pool().Put(conn)
+		for _, table := range []string{"plans", "blocks", "checks", "sequences", "actions"} {
+			stmt, _, err := conn.PrepareTransient("SELECT id FROM " + table)
+			if err != nil {
+				continue
+			}
+			for {
+				has, err := stmt.Step()
+				if err != nil || !has {
+					break
+				}
+				if path, ok := ids[stmt.ColumnText(0)]; ok {
+					found = append(found, table+":"+path)
+				}
+			}
+			stmt.Finalize()
+		}
+	})
+	sort.Strings(found)
+	if len(found) > 6 {
+		found = append(found[:6], fmt.Sprintf("… %d rows", len(found)))
+	}
+	return strings.Join(found, " ")
+}
+
+func (sw *storeWorld) doStream(ci int, op StoreOp, callSeq int) {
+	w := sw.w
+	B := be(sw)
+	ctx, cancel := stdctx.WithCancel(context.Background())
+	defer cancel()
+	var ch chan storage.Stream[storage.ListResult]
+	var err error
+	f := storage.Filters{}
+	for _, i := range op.IDs {
+		f.ByIDs = append(f.ByIDs, sw.id(i))
+	}
+	for _, g := range op.Groups {
+		f.ByGroupIDs = append(f.ByGroupIDs, groupUUID(g))
+	}
+	for _, s := range op.Statuses {
+		f.ByStatus = append(f.ByStatus, workflow.Status(s))
+	}
+	what := "Search"
+	ok := true
+	if op.Op == "list" {
+		what = "List"
+		ok = sw.inVault(func() { ch, err = sw.vault.List(ctx, op.Limit) })
+	} else {
+		ok = sw.inVault(func() { ch, err = sw.vault.Search(ctx, f) })
+	}
+	if !ok {
+		sw.v.addf("C15", "C15.r4", B+" "+what+" never returned (an earlier stream still holds the connection?)", nil, "client %d", ci)
+		return
+	}
+	shape := filterShape(op)
+	coarse := "by status only"
+	switch {
+	case op.Op == "list":
+		coarse = shape
+	case len(op.IDs) > 0:
+		coarse = "by ids"
+	case len(op.Groups) > 0:
+		coarse = "by group ids"
+	}
+	if err != nil {
+		sw.tracef("c%d %s(%s) = error %v", ci, what, shape, err)
+		sw.v.addf("C15", "C15.r2", B+" "+what+" failed ("+coarse+")", nil, "%s: %v", shape, err)
+		return
+	}
+	var got []storage.ListResult
+	closed := false
+	cancelled := false
+	var streamErr error
+	for n := 0; ; n++ {
+		if op.Consume == "cancel" && n == op.K && !cancelled {
+			cancel()
+			cancelled = true
+			sw.probe("consumer cancelled a stream")
+		}
+		if !w.Park(0, fmt.Sprintf("op: c%d stream-elem %d", ci, n)) {
+			return
+		}
+		timedOut := false
+		select {
+		case item, ok := <-ch:
+			if !ok {
+				closed = true
+			} else if item.Err != nil {
+				streamErr = item.Err
+			} else {
+				got = append(got, item.Result)
+			}
+		case <-time.After(opBudget):
+			timedOut = true // nothing arrived within the budget and the stream is not closed
+		}
+		if closed || timedOut || n > 10000 {
+			break
+		}
+	}
+	w.Log(Event{Kind: EvAPIRet, Client: ci, Op: op.Op, Note: fmt.Sprintf("%d results closed=%v", len(got), closed)})
+	sw.tracef("c%d %s(%s) -> %d results, closed=%v cancelled=%v err=%v", ci, what, shape, len(got), closed, cancelled, streamErr)
+	if !closed {
+		mode := "after the consumer drained it"
+		if cancelled {
+			mode = "after the consumer cancelled"
+		}
+		sw.v.addf("C15", "C15.r4", B+" "+what+" stream never closed "+mode, nil, "%d results delivered", len(got))
+	}
+	if sw.spec.Conc {
+		return
+	}
+	// expected rows
+	var want []listRow
+	for _, r := range sw.modelRows() {
+		if op.Op == "search" {
+			if len(op.IDs) > 0 {
+				in := false
+				for _, i := range op.IDs {
+					if i == r.idx {
+						in = true
+					}
+				}
+				if !in {
+					continue
+				}
+			}
+			if len(op.Groups) > 0 {
+				in := false
+				for _, g := range op.Groups {
+					if groupUUID(g).String() == r.group {
+						in = true
+					}
+				}
+				if !in {
+					continue
+				}
+			}
+			if len(op.Statuses) > 0 && !contains(op.Statuses, r.status) {
+				continue
+			}
+		}
+		want = append(want, r)
+	}
+	if op.Op == "list" && op.Limit > 0 && len(want) > op.Limit {
+		want = want[:op.Limit]
+	}
+	if sw.spec.Backend == "cosmos" {
+		// the fake client ignores status/group predicates and ORDER BY: only membership by id,
+		// List cardinality and stream closure are decidable over it
+		if op.Op == "search" && (len(op.Groups) > 0 || len(op.Statuses) > 0) {
+			return
+		}
+		if !cancelled && streamErr == nil && len(got) != len(want) {
+			sw.v.addf("C15", "C15.r2", fmt.Sprintf("%s %s returned a wrong number of plans (%s)", B, what, shape), nil, "got %d want %d", len(got), len(want))
+		}
+		return
+	}
+	if streamErr != nil && !cancelled {
+		sw.v.addf("C15", "C15.r2", B+" "+what+" stream delivered an error ("+coarse+")", nil, "%s: %v", shape, streamErr)
+		return
+	}
+	if len(want) > 0 && len(want) < len(sw.model) {
+		sw.probe("filter matched a proper non-empty subset")
+	}
+	rule := "C15.r2"
+	if op.Op == "list" {
+		rule = "C15.r3"
+	}
+	if cancelled {
+		// any prefix of the expected sequence is acceptable
+		if len(got) > len(want) {
+			sw.v.addf("C15", rule, B+" "+what+" returned more plans than match ("+shape+")", nil, "got %d want <= %d", len(got), len(want))
+			return
+		}
+		want = want[:len(got)]
+	}
+	if len(got) != len(want) {
+		kind := "too few"
+		if len(got) > len(want) {
+			kind = "too many"
+		}
+		sw.v.addf("C15", rule, fmt.Sprintf("%s %s returned %s plans (%s)", B, what, kind, shape), nil, "got %d want %d", len(got), len(want))
+		return
+	}
+	for k := range want {
+		g, x := got[k], want[k]
+		switch {
+		case g.ID.String() != x.id:
+			in := false
+			for _, y := range want {
+				if y.id == g.ID.String() {
+					in = true
+				}
+			}
+			if in {
+				sw.v.addf("C15", rule, B+" "+what+" results are not ordered newest submission first ("+shape+")", nil, "position %d", k)
+			} else {
+				sw.v.addf("C15", rule, B+" "+what+" returned a plan that does not match ("+shape+")", nil, "position %d", k)
+			}
+			return
+		case g.Name != x.name || g.Descr != x.descr || g.GroupID.String() != x.group || tsnap(g.SubmitTime) != x.submit:
+			sw.v.addf("C15", rule, B+" "+what+" result carries wrong name/descr/group/submit time", nil, "position %d", k)
+			return
+		case g.State == nil || int(g.State.Status) != x.status:
+			sw.v.addf("C15", rule, B+" "+what+" result carries a wrong status", nil, "position %d", k)
+			return
+		}
+	}
+}
+
+func filterShape(op StoreOp) string {
+	if op.Op == "list" {
+		switch {
+		case op.Limit == 0:
+			return "no limit"
+		default:
+			return "with a limit"
+		}
+	}
+	var parts []string
+	if n := len(op.IDs); n > 0 {
+		parts = append(parts, map[bool]string{true: "one id", false: "several ids"}[n == 1])
+	}
+	if n := len(op.Groups); n > 0 {
+		parts = append(parts, map[bool]string{true: "one group", false: "several groups"}[n == 1])
+	}
+	if n := len(op.Statuses); n > 0 {
+		parts = append(parts, map[bool]string{true: "one status", false: "several statuses"}[n == 1])
+	}
+	return strings.Join(parts, " + ")
+}
+
+// ---------------------------------------------------------------------------
+// linearizability (concurrent clients)
+// ---------------------------------------------------------------------------
+
+type linIn struct {
+	op   string
+	plan int
+	val  int64
+}
+type linOut struct {
+	ok  bool
+	val int64
+}
+type linState struct {
+	exists bool
+	val    int64
+}
+
+func (sw *storeWorld) record(ci int, op StoreOp, call, ret int, ok bool, val int64, isRead bool) {
+	sw.mu.Lock()
+	defer sw.mu.Unlock()
+	in := linIn{op: op.Op, plan: op.Plan, val: val}
+	if isRead {
+		in.val = 0
+	}
+	sw.hist = append(sw.hist, porcupine.Operation{ClientId: ci, Input: in, Call: int64(call), Output: linOut{ok: ok, val: val}, Return: int64(ret)})
+}
+
+var linModel = porcupine.Model{
+	Partition: func(history []porcupine.Operation) [][]porcupine.Operation {
+		m := map[int][]porcupine.Operation{}
+		var keys []int
+		for _, o := range history {
+			k := o.Input.(linIn).plan
+			if _, ok := m[k]; !ok {
+				keys = append(keys, k)
+			}
+			m[k] = append(m[k], o)
+		}
+		sort.Ints(keys)
+		var out [][]porcupine.Operation
+		for _, k := range keys {
+			out = append(out, m[k])
+		}
+		return out
+	},
+	Init: func() interface{} { return linState{} },
+	Step: func(state, input, output interface{}) (bool, interface{}) {
+		s := state.(linState)
+		in := input.(linIn)
+		out := output.(linOut)
+		switch in.op {
+		case "create":
+			if s.exists {
+				return !out.ok, s
+			}
+			if !out.ok {
+				return false, s
+			}
+			return true, linState{exists: true, val: 0}
+		case "delete":
+			if s.exists {
+				if !out.ok {
+					return false, s
+				}
+				return true, linState{}
+			}
+			return true, s // unspecified result
+		case "update":
+			if s.exists {
+				return out.ok, linState{exists: true, val: in.val}
+			}
+			return true, s
+		case "read":
+			if !s.exists {
+				return !out.ok, s
+			}
+			return out.ok && out.val == s.val, s
+		case "exists":
+			return out.ok == s.exists, s
+		}
+		return true, s
+	},
+	Equal: func(a, b interface{}) bool { return a.(linState) == b.(linState) },
+}
+
+// ---------------------------------------------------------------------------
+
+// RunStore executes one store world in a bubble.
+func RunStore(t *testing.T, spec *StoreSpec) (res *StoreResult) {
+	res = &StoreResult{Probes: map[string]int{}}
+	var dir string
+	if spec.Backend == "sqlite-file" {
+		d, err := os.MkdirTemp("", "verif-store-")
+		if err != nil {
+			res.Harness = err.Error()
+			return res
+		}
+		dir = d
+		defer os.RemoveAll(d)
+	}
+	defer func() {
+		if r := recover(); r != nil {
+			msg := fmt.Sprint(r)
+			if strings.Contains(msg, "deadlock") || strings.Contains(msg, "blocked goroutines remain") {
+				res.Probes["bubble ended with blocked goroutines"]++
+				return
+			}
+			res.Harness = "panic outside bubble: " + msg
+		}
+	}()
+	synctest.Test(t, func(t *testing.T) {
+		defer func() {
+			if r := recover(); r != nil {
+				res.Harness = fmt.Sprintf("panic in store controller: %v", r)
+			}
+		}()
+		runStoreInBubble(t, spec, dir, res)
+	})
+	if spec.Conc && res.Harness == "" && len(res.hist) > 0 {
+		switch porcupine.CheckOperationsTimeout(linModel, res.hist, 20*time.Second) {
+		case porcupine.Illegal:
+			res.Violations = append(res.Violations, Violation{Prop: "C13", Rule: "C13.r4", Class: "C13.r4 " + spec.Backend + " concurrent history is not linearizable", Msg: fmt.Sprintf("%d operations", len(res.hist))})
+		case porcupine.Unknown:
+			res.LinUnknown = true
+		}
+	}
+	return res
+}
+
+func runStoreInBubble(t *testing.T, spec *StoreSpec, dir string, res *StoreResult) {
+	rs := &RunSpec{SchedSeed: spec.SchedSeed, Policy: spec.Policy, Decisions: spec.Decisions}
+	w := NewWorld(rs)
+	go w.schedulerLoop()
+	pool, err := worker.New(stdctx.Background(), "storepool", worker.WithSize(64))
+	if err != nil {
+		res.Harness = err.Error()
+		return
+	}
+	worker.Set(pool)
+	sw := &storeWorld{spec: spec, w: w, t: t, dir: dir, model: map[int]*FullPlan{}, v: &vset{}, res: res, sem: make(chan struct{}, 1)}
+	r := NewRng(Mix(spec.Seed, 0x570e))
+	sw.unknown = v7(r)
+	for i := range spec.Plans {
+		sw.live = append(sw.live, materialise(i, &spec.Plans[i], r))
+	}
+	v, err := sw.open()
+	if err != nil {
+		res.Harness = "open: " + err.Error()
+		return
+	}
+	sw.vault = v
+	var wg sync.WaitGroup
+	for ci, ops := range spec.Clients {
+		wg.Add(1)
+		go func(ci int, ops []StoreOp) {
+			defer wg.Done()
+			defer func() {
+				if r := recover(); r != nil {
+					sw.v.addf("C13", "C13.r1", be(sw)+" vault operation panicked", nil, "%v", r)
+				}
+			}()
+			for _, op := range ops {
+				sw.doOp(ci, op)
+			}
+		}(ci, ops)
+	}
+	done := make(chan struct{})
+	go func() { wg.Wait(); close(done) }()
+	select {
+	case <-done:
+	case <-time.After(20 * opBudget):
+		res.Harness = "store run exceeded its simulated budget"
+	}
+	if spec.Conc && res.Harness == "" {
+		sw.mu.Lock()
+		hist := append([]porcupine.Operation(nil), sw.hist...)
+		sw.mu.Unlock()
+		res.HistoryLen = len(hist)
+		res.hist = hist // checked outside the bubble: the checker's timeout must be real time
+	}
+	w.Kill()
+	w.Stop()
+	synctest.Wait()
+	res.SimNs = w.Now()
+	res.Decisions = w.Decisions()
+	res.Violations = sw.v.list
+	sortViolations(res.Violations)
+	cctx, cancel := stdctx.WithTimeout(stdctx.Background(), time.Minute)
+	pool.Close(cctx)
+	cancel()
+	if sw.vault != nil {
+		func() {
+			defer func() { recover() }()
+			sw.vault.Close(stdctx.Background())
+		}()
+	}
+}
